@@ -44,7 +44,7 @@ RULE = ("generated Markdown documents (headings, prose of 0-60 lines, lists, quo
         "indented with spaces/tabs or fenced with ```/~~~ of several lengths and indents, recipe/new-recipe, in top level / "
         "quote / bullet and ordered list / on the marker line / quote in list / list in quote / nested list; tab-separated prose and NFD (combining-mark) names before the fault; re-wrapped sibling documents (same listing at the same offset on another line) compiled in the same process; files starting with 1-3 empty lines and / or a byte-order mark; blank lines "
         "and multi-line statements inside blocks; missing final newline / closing fence) with ONE injected fault "
-        "(redefinition, proportion of unknown name, stray token, unclosed parenthesis, a block repeated verbatim after a block that defines a name); faulty lines with tabs as white space and of 80-200 characters (snippet compared exactly); listing lines starting with '#' at a statement position of a "
+        "(redefinition, proportion of unknown name, stray token, unclosed parenthesis, a block repeated verbatim after a block that defines a name); faulty lines with tabs as white space and of 80-200 characters (snippet compared exactly); text that looks like an HTML character reference (&amp; &lt; &deg; &#65;) in faulty lines and before them; listing lines starting with '#' at a statement position of a "
         "block, written with LF, CRLF and mixed line ends; a case is non-trivial when the fault is not on line 1; "
         "distinct = distinct (text, fault)")
 
@@ -265,6 +265,8 @@ def doc_cases(rng: random.Random, n_docs: int, faults_per_doc: int, exhaustive: 
                     tags.append("no-final-newline")
                 tags.append("file-start:" + d.lead)
                 tags.append("fault-line:" + d.fault.get("shape", "plain"))
+                if any("&" in l for st in b.stmts[: d.fault["stmt"]] for l in st):
+                    tags.append("entity-text-before-fault")
                 if any(l.lstrip().startswith("#") for st in b.stmts[: d.fault["stmt"]] for l in st):
                     tags.append("hash-line-before-fault")
                 if b.stmts and any("\u0303" in l or "\u0300" in l or "\u0301" in l
